@@ -29,13 +29,24 @@ var (
 	alphaDates = []string{"2020-01-30", "2020-01-31", "2020-02-01", "2020-02-29", "2020-03-02", "2020-03-31", "2020-04-01"}
 )
 
-const openDate = "2019-12-31"
+const (
+	openDate         = "2019-12-31"
+	openDateChildren = "2020-01-01"
+)
 
 // opensPrefix opens every account of the alphabet before the first body date.
+// The two sub-accounts of Assets:Bank are written first although they are opened a day
+// later than their parent: in source order the children are seen before the parent, in
+// date order (and hence in a printed journal) after it.
 func opensPrefix() []jr.Dir {
 	var ds []jr.Dir
+	for _, a := range []string{accChecking, accSavings} {
+		ds = append(ds, jr.O(openDateChildren, a))
+	}
 	for _, a := range allAccounts {
-		ds = append(ds, jr.O(openDate, a))
+		if a != accChecking && a != accSavings {
+			ds = append(ds, jr.O(openDate, a))
+		}
 	}
 	return ds
 }
